@@ -21,20 +21,45 @@ type replyResult struct {
 // close(ch) is intentionally absent everywhere: this makes the F5
 // "send on closed channel" panic class structurally unreachable.
 type replyRegistry struct {
-	m *xsync.MapOf[[4]byte, chan replyResult]
+	m *xsync.MapOf[[4]byte, replyEntry]
+}
+
+// replyKind says which kind of reply a registered transaction is waiting for. Data and control
+// transactions share one System Bytes space, so the key alone does not identify a reply: a
+// Linktest.rsp that reuses the System Bytes of an open data transaction is not that transaction's
+// reply (and vice versa).
+type replyKind uint8
+
+const (
+	replyAny     replyKind = iota // accept whatever is routed for the key
+	replyData                     // a data transaction: its reply is a data message
+	replyControl                  // a control transaction: its reply is a control message
+)
+
+// replyEntry is one open transaction: the sender-owned channel and the kind of reply it expects.
+type replyEntry struct {
+	ch   chan replyResult
+	kind replyKind
 }
 
 // newReplyRegistry returns an initialised replyRegistry ready for use.
 func newReplyRegistry() replyRegistry {
-	return replyRegistry{m: xsync.NewMapOf[[4]byte, chan replyResult]()}
+	return replyRegistry{m: xsync.NewMapOf[[4]byte, replyEntry]()}
 }
 
 // register allocates a buffered reply channel for key, stores it, and returns
 // it to the sender.  The caller is responsible for calling deregister (via
 // defer) when the send operation completes or is abandoned.
 func (r replyRegistry) register(key [4]byte) chan replyResult {
+	return r.registerKind(key, replyAny)
+}
+
+// registerKind is register for a transaction that expects a reply of one kind only: route then
+// treats a message of the other kind carrying the same System Bytes as a miss, so it can neither
+// complete the transaction nor occupy its one-slot buffer in front of the real reply.
+func (r replyRegistry) registerKind(key [4]byte, kind replyKind) chan replyResult {
 	ch := make(chan replyResult, 1)
-	r.m.Store(key, ch)
+	r.m.Store(key, replyEntry{ch: ch, kind: kind})
 
 	return ch
 }
@@ -50,13 +75,21 @@ func (r replyRegistry) deregister(key [4]byte) {
 // On hit, if the channel is already full (a duplicate reply raced in) the
 // result is silently discarded via the default branch — no block, no panic.
 func (r replyRegistry) route(key [4]byte, res replyResult) bool {
-	ch, ok := r.m.Load(key)
+	e, ok := r.m.Load(key)
 	if !ok {
 		return false
 	}
 
+	// A message of the other kind is not this transaction's reply: report a miss, so the caller
+	// handles it as the unsolicited message it is. Errors (a peer Reject.req) go to either kind.
+	if e.kind != replyAny && res.err == nil && res.msg != nil {
+		if _, isData := res.msg.(*DataMessage); isData != (e.kind == replyData) {
+			return false
+		}
+	}
+
 	select {
-	case ch <- res:
+	case e.ch <- res:
 	default:
 	}
 
